@@ -51,6 +51,7 @@ class TraceResult:
     stderr: str = ""            # stderr of the harness (diagnostics and the markers)
     scratch: str = ""           # the scratch directory that was used
     timed_out: bool = False
+    paused: bool = False        # pause_hook ran (the process was stopped by an injected SIGSTOP and continued)
 
     def __iter__(self):         # allows  impl, events, raw, rc, killed = run_traced(...)
         return iter((self.impl_lines, self.events, self.raw_path, self.rc, self.killed))
@@ -648,8 +649,23 @@ def _wait_stopped(pid, deadline):
     return False
 
 
+def _all_stopped(pid):
+    """Every thread of the process is in a stop state (group stop after SIGSTOP, with or without a tracer)."""
+    try:
+        tasks = os.listdir(f"/proc/{pid}/task")
+        if not tasks:
+            return False
+        for t in tasks:
+            with open(f"/proc/{pid}/task/{t}/stat") as fh:
+                if fh.read().rsplit(")", 1)[1].split()[0] not in ("T", "t"):
+                    return False
+        return True
+    except OSError:
+        return False
+
+
 def run_traced(flavour, ops, scratch=None, inject=None, timeout=120, keep=False, reuse=False,
-               extra_trace=(), env_extra=None, attach=None):
+               extra_trace=(), env_extra=None, attach=None, pause_hook=None):
     """Run `ops` (text or list of lines) on the `flavour` build under strace.
 
     scratch   directory to use (removed first unless reuse=True); default: a fresh one below
@@ -711,8 +727,34 @@ def run_traced(flavour, ops, scratch=None, inject=None, timeout=120, keep=False,
     else:
         p = subprocess.Popen(cmd + [C.drive_bin(flavour), d], stdin=subprocess.PIPE, stdout=subprocess.PIPE,
                              stderr=subprocess.PIPE, cwd=root, env=env, start_new_session=True)
+    paused = False
+    if pause_hook is not None:
+        # `inject=<call>:signal=SIGSTOP:when=N`: the whole process stops (group stop) once that call has been made;
+        # while it is stopped `pause_hook()` runs (another process works on the same cache), then it is continued
+        t_run = time.time() + 10
+        while attach and _all_stopped(p.pid) and time.time() < t_run:      # the start-up stop of attach mode is over first
+            time.sleep(0.002)
+        p.stdin.write(_ops_text(ops).encode()); p.stdin.close(); p.stdin = None
+        t_end = time.time() + timeout
+        while p.poll() is None and time.time() < t_end:
+            if _all_stopped(p.pid):
+                time.sleep(0.03)
+                if _all_stopped(p.pid):
+                    # (strace counts `when=N` per thread: another thread's N-th call stops the process again later -
+                    # the hook runs at the first stop only, every stop is continued)
+                    try:
+                        if not paused:
+                            paused = True
+                            pause_hook()
+                    finally:
+                        try:
+                            os.kill(p.pid, signal.SIGCONT)
+                        except OSError:
+                            pass
+            time.sleep(0.004)
     try:
-        out, err = p.communicate(_ops_text(ops).encode(), timeout=timeout)
+        out, err = p.communicate(None if pause_hook is not None else _ops_text(ops).encode(),
+                                 timeout=max(1, timeout if pause_hook is None else t_end - time.time()))
     except subprocess.TimeoutExpired:
         timed_out = True
         try:
@@ -755,7 +797,7 @@ def run_traced(flavour, ops, scratch=None, inject=None, timeout=120, keep=False,
     return TraceResult(impl_lines=impl, events=events, raw_path=raw, rc=rc, killed=killed,
                        unparsed=ps.unparsed, prelude=ps.prelude, after=after, unfinished=unfinished,
                        counts=ps.counts, counts_by_pid=ps.by_pid, op_ended=ps.op_ended,
-                       stderr=err.decode(errors="replace"), scratch=d, timed_out=timed_out)
+                       stderr=err.decode(errors="replace"), scratch=d, timed_out=timed_out, paused=paused)
 
 
 _TMP_RE = re.compile(r"^c\d+/tmp/\*$")
